@@ -1,9 +1,118 @@
 import UvModel.DriverUtil
-/-! line-protocol driver modes for C06 (stub: no modes yet) -/
-namespace Drivers.C06
-open UvModel.DriverUtil
+import UvModel.StreamR
+/-! line-protocol driver for C06 (stream reads); the other side is harness/c06_sim.c.
 
-/-- (mode name, action).  `uvdriver <mode>` runs the action (normally `runLines init step`). -/
-def modes : List (String × IO Unit) := []
+  mode `c06` (input = the program plus the environment lines the harness logged):
+    open <pipe|tcp|ipc>            new case
+    allocs <n|0>...                alloc_cb answers per call (0 = refusal); afterwards 65536
+    script <k> <stop|start|close>...   ops of the k-th read_cb invocation
+    start | stop | close           uv_read_start / uv_read_stop / uv_close from the main program
+    run <mask> <outcome>...        uv_run(NOWAIT): epoll events for the descriptor (0 = not reported),
+                                   result of every read/recvmsg call (n ≥ 0 bytes, or -errno)
+    peer w <n> | peer fd <n>       the peer writes n pattern bytes (fd: with a descriptor attached)
+    peer shut | peer close         the peer half-closes / closes
+  output: `op ...` echo, `cb alloc <id> <size>`, `cb read <nread> buf=<id|-> <hex|->`,
+          `ret <op> <code>`, `cb close`, `bad-env ...` when the logged environment was not consumed exactly.
+-/
+namespace Drivers.C06
+open UvModel UvModel.DriverUtil UvModel.StreamR
+
+def hex2 (n : Nat) : String :=
+  let d := fun (x : Nat) => "0123456789abcdef".toList.getD x '0'
+  String.ofList [d (n / 16), d (n % 16)]
+
+def patByte (pos : Nat) : Nat := (pos * 7 + 3) % 251
+
+structure DS where
+  s : St := {}
+  allocs : List Nat := []
+  script : List (Nat × List CbOp) := []
+  pos : Nat := 0
+  opened : Bool := false
+
+def user (d : DS) : User :=
+  { allocS := fun k => d.allocs.getD k 65536
+    cbS := fun k => ((d.script.find? (·.1 = k)).map (·.2)).getD [] }
+
+def opName : CbOp → String
+  | .stop => "stop" | .start => "start" | .close => "close"
+
+def fmtEv : Ev → Option String
+  | .peerW _ => none
+  | .peerShut => none
+  | .alloc id sz => some s!"cb alloc {id} {sz}"
+  | .readCb n buf bytes =>
+    let b := match buf with | some id => toString id | none => "-"
+    let h := if bytes.isEmpty then "-" else String.join (bytes.map hex2)
+    some s!"cb read {n} buf={b} {h}"
+  | .ret op c => some s!"ret {opName op} {c}"
+  | .closeCb => some "cb close"
+
+def newEvents (old new : St) : List String :=
+  (new.trace.drop old.trace.length).filterMap fmtEv
+
+def parseCbOp : String → Option CbOp
+  | "stop" => some .stop | "start" => some .start | "close" => some .close | _ => none
+
+def allSome {α : Type} (l : List (Option α)) : Option (List α) :=
+  l.foldr (fun x acc => match x, acc with | some a, some t => some (a :: t) | _, _ => none) (some [])
+
+def parseOutcome (w : String) : Option Outcome :=
+  match w.toInt? with
+  | some i =>
+    if i ≥ 0 then some (.ok i.toNat)
+    else if i = -11 then some .eagain
+    else if i = -4 then some .eintr
+    else some (.err (-i).toNat)
+  | none => none
+
+def parseMask (w : String) : Option PollEv :=
+  w.toNat?.map fun m =>
+    { inn := m % 2 = 1, out := (m / 4) % 2 = 1, err := (m / 8) % 2 = 1, hup := (m / 16) % 2 = 1 }
+
+def apply (d : DS) (echo : String) (o : Op) : DS × List String :=
+  let s' := stepOp (user d) d.s o
+  ({ d with s := s' }, [echo] ++ newEvents d.s s')
+
+def step (d : DS) : List String → DS × List String
+  | [] => (d, [])
+  | ["open", kind] =>
+    if kind = "pipe" ∨ kind = "tcp" ∨ kind = "ipc" then ({ opened := true }, ["opened"]) else (d, ["bad-op"])
+  | "allocs" :: l =>
+    match allSome (l.map String.toNat?) with
+    | some a => ({ d with allocs := d.allocs ++ a }, [])
+    | none => (d, ["bad-op"])
+  | "script" :: k :: ops =>
+    match k.toNat?, allSome (ops.map parseCbOp) with
+    | some k, some l => ({ d with script := (k, l) :: d.script }, [])
+    | _, _ => (d, ["bad-op"])
+  | ["start"] => apply d "op start" .start
+  | ["stop"] => apply d "op stop" .stop
+  | ["close"] => apply d "op close" .close
+  | "run" :: mask :: outs =>
+    match parseMask mask, allSome (outs.map parseOutcome) with
+    | some ev, some reads =>
+      let n0 := d.s.nSys
+      let (d', out) := apply d "op run" (.poll ev reads)
+      let used := d'.s.nSys - n0
+      let bad := if d'.s.oracle.isEmpty ∧ used = reads.length then []
+                 else [s!"bad-env model made {used} read calls, log has {reads.length}"]
+      (d', out ++ bad)
+    | _, _ => (d, ["bad-op"])
+  | ["peer", kind, n] =>
+    match n.toNat? with
+    | some n =>
+      if kind = "w" ∨ kind = "fd" then
+        let bytes := (List.range n).map fun i => patByte (d.pos + i)
+        let echo := s!"op peer {kind} {n}"
+        if d.s.peerShut || !d.s.fdOpen then (d, [echo])
+        else let (d', out) := apply d echo (.peerW bytes); ({ d' with pos := d.pos + n }, out)
+      else (d, ["bad-op"])
+    | none => (d, ["bad-op"])
+  | ["peer", kind] =>
+    if kind = "shut" ∨ kind = "close" then apply d s!"op peer {kind}" .peerShut else (d, ["bad-op"])
+  | _ => (d, ["bad-op"])
+
+def modes : List (String × IO Unit) := [("c06", runLines ({} : DS) step)]
 
 end Drivers.C06
